@@ -129,6 +129,12 @@ C05(pre, post, e) ==
                 rn == Cardinality(ResStates(tr, p, key))
                 un == Cardinality(UnusedStates(tr, key))
             IN pn + rn <= n /\ n <= pn + rn + un
+\* a request whose result was handed in in this step is no longer pending in the new data
+C05answered(pre, e) ==
+    (~Died(e) /\ Class(e.out.code) \in {"ok", "unproc"}) =>
+        \A i \in RealResults(pre, e) :
+            \A j \in Indices(e.out.data.trace) :
+                LET s == e.out.data.trace[j] IN ~(s.k = "sent" /\ s.by = e.peer /\ s.id = e.res[i].id)
 
 (***************************************************************************)
 (* C06  request ids are fresh; results reach the call that requested them; *)
@@ -144,7 +150,10 @@ C06b(pre, post, e) ==
     LET p == e.peer  tr == post.store[p].trace IN
     (~Died(e) /\ ReturnsNewData(e.out.code)) =>
         \A i \in Indices(tr) :
-            (tr[i].k \in {"exec", "failed"} /\ tr[i].p = p /\ tr[i].ah.t = "a" /\ ServiceKnown(tr[i].s)) =>
+            \* every recorded result whose call arguments are known, whichever peer it is attributed to:
+            \* a result applied to another peer's pending call shows up as a foreign state with the wrong content
+            (tr[i].k \in {"exec", "failed"} /\ (tr[i].k = "failed" \/ tr[i].vt # "unused") /\ tr[i].ah.t = "a"
+             /\ ServiceKnown(tr[i].s)) =>
                 LET sv == Service(tr[i].s, tr[i].f, tr[i].ah.q) IN
                 IF sv.rc = 0 /\ sv.v.t # "raw" THEN tr[i].k = "exec" /\ tr[i].v = sv.v
                 ELSE tr[i].k = "failed" /\ (sv.rc # 0 => tr[i].v = FailedValue(sv.rc, sv.body))
@@ -176,6 +185,14 @@ C09(pre, e) ==
         /\ BagSubset(Results(pre.store[e.peer].trace), Results(e.out.data.trace))
         /\ BagSubset(Results(CurData(pre, e.cur).trace), Results(e.out.data.trace))
 
+\* the observer merges are runs too: when every merge step succeeded, the final data holds every result
+\* of every datum that was merged
+C09obs(s, e) ==
+    \A i \in 1..Len(e.results) :
+        (\A j \in 1..Len(e.results[i].codes) : e.results[i].codes[j] = 0) =>
+            \A m \in 1..Len(e.set) :
+                BagSubset(Results(s.sent[e.set[m][1]][e.set[m][2]].trace), Results(e.results[i].data.trace))
+
 (***************************************************************************)
 (* C10  produced traces are structurally well formed                       *)
 (***************************************************************************)
@@ -206,8 +223,11 @@ C19aCanon(pre, e) ==
             (s.k = "cexec" /\ s.c \notin known) => s.p = p
 C19(pre, e) == C19b(pre, e) /\ C19cWeak(pre, e) /\ C19aCanon(pre, e)
 \* quiescence: all final data merged at an observer hold no request marked as sent
+\* (marks written by the observer itself while it merges only say that the merged knowledge allows more
+\*  progress; the property is about marks left by the participants)
+LeftoverMarks(tr) == {i \in Indices(tr) : IsPending(tr[i]) /\ tr[i].by \notin {"O", "V"}}
 C19d(e) ==
-    e.quiescent => \A i \in 1..Len(e.results) : PendingCount(e.results[i].data.trace) = 0
+    e.quiescent => \A i \in 1..Len(e.results) : LeftoverMarks(e.results[i].data.trace) = {}
 
 (***************************************************************************)
 (* C20  execution is deterministic                                         *)
